@@ -1,36 +1,37 @@
 #!/bin/bash
 # rerun_seeded.sh [ids...]: apply every stored seeded change to /repo, run the property's quick
 # check, undo, and record the outcome as final_check_result in seeded/<id>/meta.json.
-cd /verif
+V=${VERIF_ROOT:-/verif}; R=${VERIF_REPO:-/repo}; export VERIF_REPO=$R VERIF_ROOT=$V
+cd $V
 ids="$@"; [ -z "$ids" ] && ids=$(ls seeded)
 for id in $ids; do
   P=${id%%-*}
-  patch=/verif/seeded/$id/patch.diff
-  cw=$(python3 -c "import json;print(json.load(open('/verif/seeded/$id/meta.json')).get('check_with',''))")
+  patch=$V/seeded/$id/patch.diff
+  cw=$(python3 -c "import json;print(json.load(open('$V/seeded/$id/meta.json')).get('check_with',''))")
   [ -n "$cw" ] && P=$cw
-  [ -f seeded/$id/patch_ported_to_repaired_keyring.diff ] && { patch=/verif/seeded/$id/patch_ported_to_repaired_keyring.diff; P=C12; }
+  [ -f seeded/$id/patch_ported_to_repaired_keyring.diff ] && { patch=$V/seeded/$id/patch_ported_to_repaired_keyring.diff; P=C12; }
   # the same change re-made on code that a later repair rewrote
-  for pp in seeded/$id/patch_ported_to_repaired_*.diff; do [ -f "$pp" ] && patch=/verif/$pp; done
-  if ! git -C /repo apply --check $patch 2>/dev/null; then
-    if git -C /repo apply --3way $patch >/dev/null 2>&1; then git -C /repo reset -q; else
-      git -C /repo checkout -q -- . ; res="patch no longer applies to the repaired tree (the code it changes was rewritten by a later fix)"; 
+  for pp in seeded/$id/patch_ported_to_repaired_*.diff; do [ -f "$pp" ] && patch=$V/$pp; done
+  if ! git -C $R apply --check $patch 2>/dev/null; then
+    if git -C $R apply --3way $patch >/dev/null 2>&1; then git -C $R reset -q; else
+      git -C $R checkout -q -- . ; res="patch no longer applies to the repaired tree (the code it changes was rewritten by a later fix)"; 
       python3 - "$id" "$res" <<'PY'
-import json,sys
-p='/verif/seeded/%s/meta.json'%sys.argv[1]; m=json.load(open(p)); m[__import__('os').environ.get('RESULT_KEY','final_check_result')]=sys.argv[2]; json.dump(m,open(p,'w'),indent=1)
+import json,sys,os
+p=(os.environ.get('VERIF_ROOT') or '/verif')+'/seeded/%s/meta.json'%sys.argv[1]; m=json.load(open(p)); m[__import__('os').environ.get('RESULT_KEY','final_check_result')]=sys.argv[2]; json.dump(m,open(p,'w'),indent=1)
 PY
       echo "$id: $res"; continue; fi
-  else git -C /repo apply $patch; fi
-  VERIF_EVIDENCE_DIR=/verif/build/seeded_evidence ./check $P --tier quick > build/rerun_$id.out 2>/dev/null; rc=$?
-  git -C /repo checkout -q -- .
+  else git -C $R apply $patch; fi
+  VERIF_EVIDENCE_DIR=$V/build/seeded_evidence ./check $P --tier quick > build/rerun_$id.out 2>/dev/null; rc=$?
+  git -C $R checkout -q -- .
   v=$(grep '^VIOLATION' build/rerun_$id.out | head -1)
   first=$(grep -E '^\s+(PROP|PANIC|CORR|NO-LONGER)' build/rerun_$id.out | head -1 | awk '{print $1" "$3}' | tr -d ':')
   if [ $rc -eq 0 ]; then res="MISSED by ./check $P (exit 0)"; 
   elif echo "$v" | grep -q no-failing-input-found; then res="caught by ./check $P: VIOLATION no-failing-input-found ($first)";
   else res="caught by ./check $P: VIOLATION with concrete input ($first)"; fi
   python3 - "$id" "$res" <<'PY'
-import json,sys
-p='/verif/seeded/%s/meta.json'%sys.argv[1]; m=json.load(open(p)); m[__import__('os').environ.get('RESULT_KEY','final_check_result')]=sys.argv[2]; json.dump(m,open(p,'w'),indent=1)
+import json,sys,os
+p=(os.environ.get('VERIF_ROOT') or '/verif')+'/seeded/%s/meta.json'%sys.argv[1]; m=json.load(open(p)); m[__import__('os').environ.get('RESULT_KEY','final_check_result')]=sys.argv[2]; json.dump(m,open(p,'w'),indent=1)
 PY
   echo "$id: $res"
 done
-git -C /repo status --short | head -3
+git -C $R status --short | head -3
